@@ -9,7 +9,7 @@
 
 extern unsigned long long cov_edges;              /* cov.c */
 #define NV 16
-static struct mscab_decompressor *cabd; static struct mscabd_cabinet *cabs[NV];
+static struct mscab_decompressor *cabd; static struct mscabd_cabinet *cabs[NV]; static int absorbed[NV];
 static struct mschm_decompressor *chmd; static struct mschmd_header *chms[NV];
 static struct msszdd_decompressor *szddd; static struct msszddd_header *szdds[NV];
 static struct mskwaj_decompressor *kwajd; static struct mskwajd_header *kwajs[NV];
@@ -87,14 +87,15 @@ static void run_op(char **t, int n) {
     printf("op %d %s ok=%d err=%d\n", opno, o, cabs[vi(t[1])] != NULL, cabd->last_error(cabd));
     if (cabs[vi(t[1])]) cab_list(cabs[vi(t[1])]);
   }
-  else if (!strcmp(o, "cab_list") && n >= 2) { if (cabs[vi(t[1])]) cab_list(cabs[vi(t[1])]); }
+  else if (!strcmp(o, "cab_list") && n >= 2) { printf("op %d cab_list\n", opno); if (cabs[vi(t[1])]) cab_list(cabs[vi(t[1])]); }
   else if ((!strcmp(o, "cab_append") || !strcmp(o, "cab_prepend")) && n >= 3) {
     /* optional 4th/5th token: index into the ->next chain of each variable (search results) */
     struct mscabd_cabinet *a = cab_nth(cabs[vi(t[1])], n >= 4 ? atoi(t[3]) : 0), *b = !strcmp(t[2], "null") ? NULL : cab_nth(cabs[vi(t[2])], n >= 5 ? atoi(t[4]) : 0);
     if (!cabd) return;
     st = o[4] == 'a' ? cabd->append(cabd, a, b) : cabd->prepend(cabd, a, b);
     ST(o, st, cabd->last_error(cabd));
-    if (st == 0 && b && (n < 4)) cabs[vi(t[2])] = NULL;     /* absorbed: caller must not close it separately */
+    /* after a successful join the two cabinets form one set: it is closed once, through the left-most variable that is still owned */
+    if (st == 0 && b && (n < 4)) absorbed[o[4] == 'a' ? vi(t[2]) : vi(t[1])] = 1;
   }
   else if (!strcmp(o, "cab_extract") && n >= 4) {
     struct mscabd_file *f = cab_file(cab_nth(cabs[vi(t[1])], n >= 5 ? atoi(t[4]) : 0), atoi(t[2]));
@@ -105,8 +106,8 @@ static void run_op(char **t, int n) {
       printf("declared %u written %ld\n", declared, sm_written_total - w0); }
     show_out(t[3]);
   }
-  else if (!strcmp(o, "cab_close") && n >= 2) { if (cabd && cabs[vi(t[1])]) { cabd->close(cabd, cabs[vi(t[1])]); cabs[vi(t[1])] = NULL; printf("op %d cab_close err=%d\n", opno, cabd->last_error(cabd)); } }
-  else if (!strcmp(o, "cab_destroy")) { if (cabd) mspack_destroy_cab_decompressor(cabd); cabd = NULL; memset(cabs, 0, sizeof cabs); printf("op %d cab_destroy\n", opno); }
+  else if (!strcmp(o, "cab_close") && n >= 2) { if (cabd && cabs[vi(t[1])] && !absorbed[vi(t[1])]) { cabd->close(cabd, cabs[vi(t[1])]); cabs[vi(t[1])] = NULL; printf("op %d cab_close err=%d\n", opno, cabd->last_error(cabd)); } }
+  else if (!strcmp(o, "cab_destroy")) { if (cabd) mspack_destroy_cab_decompressor(cabd); cabd = NULL; memset(cabs, 0, sizeof cabs); memset(absorbed, 0, sizeof absorbed); printf("op %d cab_destroy\n", opno); }
 
   else if (!strcmp(o, "chm_new")) { chmd = mspack_create_chm_decompressor(sm_system()); printf("op %d chm_new ok=%d\n", opno, chmd != NULL); }
   else if ((!strcmp(o, "chm_open") || !strcmp(o, "chm_fast_open")) && n >= 3) {
@@ -185,12 +186,12 @@ int scn_main(int argc, char **argv) {
     if (!strcmp(t[0], "end")) {
       /* protocol: whatever the scenario left open is released by the client before the ledger is read */
       int i;
-      for (i = 0; i < NV; i++) { if (cabd && cabs[i]) cabd->close(cabd, cabs[i]); if (chmd && chms[i]) chmd->close(chmd, chms[i]);
+      for (i = 0; i < NV; i++) { if (cabd && cabs[i] && !absorbed[i]) cabd->close(cabd, cabs[i]); if (chmd && chms[i]) chmd->close(chmd, chms[i]);
                                  if (szddd && szdds[i]) szddd->close(szddd, szdds[i]); if (kwajd && kwajs[i]) kwajd->close(kwajd, kwajs[i]); }
       if (cabd) mspack_destroy_cab_decompressor(cabd); if (chmd) mspack_destroy_chm_decompressor(chmd);
       if (szddd) mspack_destroy_szdd_decompressor(szddd); if (kwajd) mspack_destroy_kwaj_decompressor(kwajd); if (oabd) mspack_destroy_oab_decompressor(oabd);
       cabd = NULL; chmd = NULL; szddd = NULL; kwajd = NULL; oabd = NULL;
-      memset(cabs, 0, sizeof cabs); memset(chms, 0, sizeof chms); memset(szdds, 0, sizeof szdds); memset(kwajs, 0, sizeof kwajs);
+      memset(cabs, 0, sizeof cabs); memset(absorbed, 0, sizeof absorbed); memset(chms, 0, sizeof chms); memset(szdds, 0, sizeof szdds); memset(kwajs, 0, sizeof kwajs);
       sm_report(); printf("END %d\n", scn_no); fflush(stdout);
       sm_reset(); scn_no++; opno = 0; printf("BEGIN %d\n", scn_no); alarm(timeout);
       continue;
